@@ -1,9 +1,10 @@
 import VelaVerif.Model.SchedMem
+import VelaVerif.Spec.SchedMem
 /-!
 # Lemmas about the model of the scheduler's memory bookkeeping (`Model/SchedMem.lean`)
 -/
 namespace VelaVerif.SchedMem
-open VelaVerif.Cascade
+open VelaVerif.Cascade VelaVerif.Spec.SchedMem
 
 def BufferMap.Consistent (bm : BufferMap) (ops : List SOp) (cost : CostMap) : Prop :=
   ∀ p ∈ ops, ∀ c ∈ ops, ∀ v, bm.lookup (some p.index, some c.index) = some v → computeBuffer (some p) (some c) cost = .ok v
@@ -380,4 +381,111 @@ theorem computeBuffer_rolling {p c : SOp} {ref : CostMap} {v : Shape4 × Nat} (h
       · next bh bw bd hr =>
         simp only [Except.ok.injEq] at h
         exact ⟨pc, cc, bh, bw, bd, rfl, rfl, hr, h.symm⟩
+/-- value of a usage array at tick `t` (0 outside the array) -/
+def val (u : List Int) (t : Nat) : Int := u.getD t 0
+
+theorem addRange_length (u : List Int) (a b : Nat) (v : Int) : (addRange u a b v).length = u.length := by
+  simp [addRange]
+
+theorem addRange_val (u : List Int) (a b : Nat) (v : Int) (t : Nat) :
+    val (addRange u a b v) t = if t < u.length ∧ a ≤ t ∧ t < b then val u t + v else val u t := by
+  unfold val addRange
+  by_cases ht : t < u.length
+  · simp [List.getD, ht]
+  · simp [List.getD, ht]
+
+theorem wrap32_id (x : Int) (h0 : 0 ≤ x) (h1 : x < 2147483648) : wrap32 x = x := by
+  unfold wrap32; omega
+
+/-- bytes of the ranges of the target area alive at tick `t` -/
+def tlrUsage : List TLR → Nat → Nat
+  | [], _ => 0
+  | lr :: rest, t => (if lr.inArea ∧ lr.start ≤ t ∧ t < lr.stop then lr.size else 0) + tlrUsage rest t
+
+theorem tlrUsage_append (l1 l2 : List TLR) (t : Nat) : tlrUsage (l1 ++ l2) t = tlrUsage l1 t + tlrUsage l2 t := by
+  induction l1 with
+  | nil => simp [tlrUsage]
+  | cons a r ih => simp [tlrUsage, ih]; omega
+
+theorem temporalUsage_fold (ct : Nat) :
+    ∀ (rest pre : List TLR) (u u' : List Int),
+      (∀ t, tlrUsage (pre ++ rest) t < 2147483648) →
+      u.length = ct + 2 → (∀ t, t < ct + 2 → val u t = tlrUsage pre t) →
+      rest.foldlM (fun u lr => if lr.inArea then (if lr.stop > ct + 3 then Except.error Err.assert_
+          else Except.ok ((addRange u lr.start lr.stop lr.size).map wrap32)) else Except.ok u) u = Except.ok u' →
+      u'.length = ct + 2 ∧ ∀ t, t < ct + 2 → val u' t = tlrUsage (pre ++ rest) t := by
+  intro rest
+  induction rest with
+  | nil => intro pre u u' _ hl hv h; simp [List.foldlM, pure, Except.pure] at h; subst h; simpa using ⟨hl, hv⟩
+  | cons lr rest ih =>
+    intro pre u u' hb hl hv h
+    rw [List.foldlM_cons] at h
+    have happ : pre ++ lr :: rest = (pre ++ [lr]) ++ rest := by simp
+    by_cases ha : lr.inArea
+    · simp only [ha, ↓reduceIte] at h
+      split at h
+      · simp [bind, Except.bind] at h
+      · simp only [bind, Except.bind] at h
+        rw [happ] at hb ⊢
+        refine ih (pre ++ [lr]) _ u' hb (by simp [addRange_length, hl]) ?_ h
+        intro t ht
+        have hbt := hb t
+        rw [tlrUsage_append, tlrUsage_append] at hbt
+        rw [tlrUsage_append]
+        have hmap : val ((addRange u lr.start lr.stop ↑lr.size).map wrap32) t = wrap32 (val (addRange u lr.start lr.stop ↑lr.size) t) := by
+          unfold val
+          have : t < (addRange u lr.start lr.stop ↑lr.size).length := by rw [addRange_length]; omega
+          simp [List.getD, this]
+        rw [hmap, addRange_val, hv t ht]
+        have hlt : t < u.length := by omega
+        by_cases hlive : lr.start ≤ t ∧ t < lr.stop
+        · simp only [tlrUsage, ha, hlive, hlt, and_self, ↓reduceIte, Nat.add_zero] at hbt ⊢
+          rw [wrap32_id] <;> omega
+        · simp only [tlrUsage, ha, hlive, hlt, and_false, ↓reduceIte, Nat.add_zero] at hbt ⊢
+          rw [wrap32_id] <;> omega
+    · simp only [ha, Bool.false_eq_true, ↓reduceIte] at h
+      simp only [bind, Except.bind] at h
+      rw [happ] at hb ⊢
+      refine ih (pre ++ [lr]) u u' hb hl ?_ h
+      intro t ht
+      rw [tlrUsage_append, hv t ht]
+      simp [tlrUsage, ha]
+
+
+theorem temporalUsage_val (lrs : List TLR) (ct : Nat) (u : List Int) (hb : ∀ t, tlrUsage lrs t < 2147483648)
+    (h : temporalUsage lrs ct = .ok u) : u.length = ct + 2 ∧ ∀ t, t < ct + 2 → val u t = tlrUsage lrs t := by
+  unfold temporalUsage at h
+  have := temporalUsage_fold ct lrs [] (List.replicate (ct + 2) 0) u (by simpa using hb) (by simp)
+    (by intro t ht; simp [val, tlrUsage, List.getD, ht]) h
+  simpa using this
+
+/-- the range as the Spec reads it; a range that is not of the target area or was never marked is alive at no tick -/
+def TLR.toRng (lr : TLR) : Option Rng :=
+  if lr.inArea ∧ lr.start < lr.stop then some ⟨lr.start, lr.stop - 1, lr.size⟩ else none
+
+theorem usageAt_cons (r : Rng) (rs : List Rng) (t : Nat) :
+    usageAt (r :: rs) t = (if r.liveAt t then r.size else 0) + usageAt rs t := by
+  unfold usageAt
+  by_cases h : r.liveAt t <;> simp [List.filter, h, sumSizes]
+
+theorem usageAt_toRng (lrs : List TLR) (t : Nat) : usageAt (lrs.filterMap TLR.toRng) t = tlrUsage lrs t := by
+  induction lrs with
+  | nil => simp [usageAt, tlrUsage, sumSizes]
+  | cons lr rest ih =>
+    unfold tlrUsage
+    by_cases h : lr.inArea ∧ lr.start < lr.stop
+    · have : TLR.toRng lr = some ⟨lr.start, lr.stop - 1, lr.size⟩ := by simp [TLR.toRng, h]
+      rw [List.filterMap_cons_some this, usageAt_cons, ih]
+      simp only [Rng.liveAt, Bool.and_eq_true, decide_eq_true_eq, h.1, true_and]
+      congr 1
+      by_cases h2 : lr.start ≤ t ∧ t < lr.stop
+      · have : lr.start ≤ t ∧ t ≤ lr.stop - 1 := by omega
+        simp [h2, this]
+      · have : ¬ (lr.start ≤ t ∧ t ≤ lr.stop - 1) := by omega
+        simp [h2, this]
+    · have : TLR.toRng lr = none := by simp [TLR.toRng, h]
+      rw [List.filterMap_cons_none this, ih]
+      have : ¬ (lr.inArea = true ∧ lr.start ≤ t ∧ t < lr.stop) := by
+        intro hh; exact h ⟨hh.1, by omega⟩
+      simp [this]
 end VelaVerif.SchedMem
